@@ -18,8 +18,10 @@ query in the order select, where, groupby, having, orderby - or None for a confo
 ``join:cross-cond`` / ``join:no-cond``  cross join with a condition / other join without one
 
 Deliberately *not* rules (the property does not list them): aggregates selected without grouping, having without
-grouping, nested aggregates, aggregates in ordering, duplicate output names, date vs timestamp comparisons (forml
-rejects those; the generators never produce them), ``year`` of a non-date, min/max of non-numeric (forml rejects).
+grouping, nested aggregates, aggregates in ordering, duplicate output names, ``year`` of a non-date, elements used inside
+a window specification. Grey zones where this oracle follows forml but the generators stay out (so that no check asserts
+either verdict): date vs timestamp comparison (``kind:cmp`` here and in forml, arguably compatible), min/max of a
+non-numeric (``kind:arith`` here and in forml, legal SQL).
 
 ``schema_of(ast)`` gives the expected output schema ``[(name | None, kind)]``: name None = unnamed expression (assert
 only count and kind), kind ``'num'`` = numeric whose int/float flavour rests on forml's "largest operand kind"
